@@ -297,12 +297,80 @@ async def directed_duplicate():
             pass
 
 
+async def transfer_history():
+    """the last clause of the statement on real transfers: two local deployments, a source registered on the first, transferred (as a
+    link or as a copy) into job directories of the second; job directories are lost and invalidated in between.  Every transfer must
+    come from a VALID primary copy: the destination exists, holds the source's content, and is registered once."""
+    import shutil
+
+    from streamflow.core.deployment import DeploymentConfig
+
+    root = os.path.realpath(tempfile.mkdtemp(prefix="c21t."))
+    ctx = build_context({"database": {"type": "default", "config": {"connection": ":memory:"}}, "path": root})
+    trace = []
+    try:
+        for name in ("__LOCAL__", "site2"):
+            os.makedirs(os.path.join(root, "workdir-" + name))
+            await ctx.deployment_manager.deploy(DeploymentConfig(name=name, type="local", config={}, external=True, lazy=False, workdir=os.path.join(root, "workdir-" + name)))
+
+        async def loc_of(dep):
+            return next(iter((await ctx.deployment_manager.get_connector(dep).get_available_locations()).values())).location
+
+        local, site2 = await loc_of("__LOCAL__"), await loc_of("site2")
+        dm = ctx.data_manager
+        srcs = []
+        for k in range(rng.randint(1, 2)):
+            src = os.path.join(root, "inputs", f"in {k}.txt")
+            os.makedirs(os.path.dirname(src), exist_ok=True)
+            open(src, "w").write(f"payload-{k}")
+            dm.register_path(local, src)
+            srcs.append((src, f"payload-{k}"))
+        jobs = []
+        for step in range(rng.randint(2, 6)):
+            if jobs and rng.random() < 0.4:
+                jd = jobs.pop(rng.randrange(len(jobs)))
+                shutil.rmtree(jd, ignore_errors=True)
+                dm.invalidate_location(site2, jd)
+                trace.append(("job directory lost and invalidated", os.path.basename(jd)))
+                continue
+            src, content = rng.choice(srcs)
+            jd = os.path.join(root, "site2", f"job{step}")
+            dst = os.path.join(jd, os.path.basename(src))
+            writable = rng.random() < 0.3
+            trace.append(("transfer", os.path.basename(src), os.path.basename(jd), "writable" if writable else "read-only"))
+            try:
+                await asyncio.wait_for(dm.transfer_data(local, src, [site2], dst, writable=writable), 60)
+            except Exception as e:  # noqa
+                return {"failure": f"a transfer from a valid primary copy raised {type(e).__name__}: {e}", "trace": trace}
+            jobs.append(jd)
+            if not os.path.exists(dst):
+                return {"failure": "the destination of a transfer does not exist or is a dangling link: the data was not taken from a valid primary copy",
+                        "destination": dst, "link_to": os.readlink(dst) if os.path.islink(dst) else None, "trace": trace}
+            if open(dst).read() != content:
+                return {"failure": "the destination of a transfer does not hold the source's content", "destination": dst, "trace": trace}
+            n = len([l for l in dm.get_data_locations(dst, "site2") if l.path == dst])  # (other valid copies of the same data on the location are reported too)
+            if n != 1:
+                return {"failure": "the destination of a transfer is not registered exactly once on its location", "registrations": n, "trace": trace}
+        return None
+    finally:
+        try:
+            await ctx.deployment_manager.undeploy_all()
+            await ctx.close()
+        except Exception:
+            pass
+        shutil.rmtree(root, ignore_errors=True)
+
+
 async def search(n):
     bad = await interleaved_source()
     if bad:
         return bad
     if await directed_duplicate():
         KNOWN.add("KF-C21-duplicate-registration")
+    for i in range(max(6, n // 8)):
+        bad = await transfer_history()
+        if bad:
+            return bad
     for i in range(n):
         bad = await history(relations=(i % 3 != 0), wrapped=(i % 2 == 0))
         if bad:
